@@ -18,7 +18,7 @@ ASSUMPTIONS = ["tolerance 1e-9 * (1 + |point| + |pivot|)", "rotation sense about
 
 @st.composite
 def _op(draw, dim):
-    op = draw(st.sampled_from(["translate", "rotate", "rotate", "scale", "read"]))
+    op = draw(st.sampled_from(["translate", "rotate", "rotate", "scale", "read", "scale_roundtrip"]))
     c = {"op": op, "inplace": draw(st.booleans()), "target": draw(st.integers(0, 7))}
     if op == "translate":
         c["vec"] = [draw(st.integers(-64, 64)) / 8.0 for _ in range(dim)]
@@ -126,10 +126,19 @@ def check_transform(case, ctx):
                 _ = tgt.evalpts
             did.append("read")
             continue
+        if st_["op"] == "scale_roundtrip":
+            # scaling by 2^-43 and back by 2^43 is exact in binary floating point: the shape must return where it was
+            # (coordinates of size 1e-13 are still ordinary floats)
+            operations.scale(tgt, 2.0 ** -43, inplace=True)
+            operations.scale(tgt, 2.0 ** 43, inplace=True)
+            did.append("scale_roundtrip!")
+            st_ = dict(st_, op="noop")
         before = [build.snapshot(e) for e in elems]
         m = None
         fresh_copy = None
-        if st_["op"] == "translate":
+        if st_["op"] == "noop":
+            m = None
+        elif st_["op"] == "translate":
             m = ("translate", list(st_["vec"]))
         elif st_["op"] == "scale":
             m = ("scale", st_["mult"])
@@ -137,9 +146,14 @@ def check_transform(case, ctx):
             # pivot = current start point of the (first) shape, under either y-handedness
             m = ("rotate", st_["angle"], st_["axis"], {1.0: _map_point(p0, maps, 1.0), -1.0: _map_point(p0, maps, -1.0)})
             nonright = nonright or st_["angle"] % 90 != 0
-        res = _apply(tgt, st_, st_["inplace"])
-        did.append(st_["op"] + ("!" if st_["inplace"] else ""))
-        if st_["inplace"]:
+        if st_["op"] == "noop":
+            res = tgt
+        else:
+            res = _apply(tgt, st_, st_["inplace"])
+            did.append(st_["op"] + ("!" if st_["inplace"] else ""))
+        if st_["op"] == "noop":
+            pass
+        elif st_["inplace"]:
             ctx.check(res is tgt, "inplace-returns-other-object", "inplace=True returned a different object")
             maps.append(m)
         else:
